@@ -31,28 +31,6 @@ theorem okImp_boolGet {len : Nat} {v : Option Bits} {vals : Bits} {idx : Nat} :
     OkImp (boolGet Fixes.all len v vals idx) (idx < len) :=
   fun _ h => boolGet_ok_lt h
 
-theorem okImp_bytesColGet {ty : BytesTy} {v : Option Bits} {offs : List Int} {data : Bytes} {idx : Nat} :
-    OkImp (bytesColGet Fixes.all ty v offs data idx) (idx < offs.length - 1) := by
-  intro o ho
-  unfold bytesColGet at ho
-  split at ho
-  · obtain ⟨o', ho'⟩ := asStr_ok' ho; exact bytesGet_ok_lt ho'
-  · exact bytesGet_ok_lt ho
-
-theorem okImp_viewColGet {ty : ViewTy} {v : Option Bits} {views : List Nat} {buffers : List Bytes} {idx : Nat} :
-    OkImp (viewColGet Fixes.all ty v views buffers idx) (idx < views.length) := by
-  intro o ho
-  unfold viewColGet at ho
-  split at ho
-  · obtain ⟨o', ho'⟩ := asStr_ok' ho; exact viewGet_ok_lt ho'
-  · exact viewGet_ok_lt ho
-
-theorem okImp_fsbColGet {n : Int} {v : Option Bits} {data : Bytes} {idx : Nat} :
-    OkImp (fsbColGet Fixes.all n v data idx) (idx < (if n ≤ 0 then 0 else data.length / n.toNat)) := by
-  intro o ho
-  have := fsbColGet_ok_lt ho
-  simpa [vlen] using this
-
 theorem okImp_nullCheck {len idx : Nat} : OkImp (nullCheck Fixes.all len idx) (idx < len) := by
   intro u h
   unfold nullCheck at h
@@ -169,6 +147,153 @@ theorem slotNull_of_isValid {a : Arr} {i : Nat} (hn : ∀ len, a ≠ .null len) 
     | (exact absurd rfl (hd _ _))
     | (simp only [slotNull, h]; rfl)
 
+theorem tryIntoUsize_ok {x : Int} {n : Nat} (h : tryIntoUsize x = .ok n) : 0 ≤ x ∧ x = (n : Int) := by
+  unfold tryIntoUsize at h
+  split at h
+  · rename_i h0
+    cases h
+    exact ⟨h0, (Int.toNat_of_nonneg h0).symm⟩
+  · cases h
+
+/-! ### a successful `get` of a byte column: the slot is null, or what it designates lies inside its buffer -/
+
+theorem asStr_ok_same {x : R (Option Bytes)} {o : Option Bytes} (h : asStr x = .ok o) : x = .ok o := by
+  cases o with
+  | none => exact asStr_none h
+  | some b => exact (asStr_ok h).1
+
+/-- `BytesView::get` succeeded: a null slot, or `0 ≤ offsets[i] ≤ offsets[i+1] ≤ data.len()` (the slice `data[start..end]`
+exists — also required of an empty pair) -/
+theorem bytesGet_ok_leafSlot {ty : BytesTy} {v : Option Bits} {offs : List Int} {data : Bytes} {idx : Nat} {o : Option Bytes}
+    (h : bytesGet Fixes.all v offs data idx = .ok o) : leafSlotOK (.bytes ty v offs data) idx = true := by
+  cases o with
+  | none =>
+    have := slotNull_of_isValid (a := .bytes ty v offs data) (by intros; simp) (by intros; simp) (isValid_of_bytesGet_none h)
+    simp only [leafSlotOK, this, Bool.true_or]
+  | some b =>
+    apply leafSlotOK_of_leafOK
+    unfold bytesGet at h
+    simp only [show Fixes.all.bytesGet = true from rfl, if_true] at h
+    split at h
+    · cases h
+    · rename_i hlen
+      obtain ⟨valid, _, h⟩ := ok_bind_inv h
+      cases valid
+      · cases h
+      · have h1 : idx < offs.length := by omega
+        have h2 : idx + 1 < offs.length := by omega
+        simp only [List.getElem?_eq_getElem h1, List.getElem?_eq_getElem h2, if_true] at h
+        obtain ⟨s, hs, h⟩ := ok_bind_inv h
+        obtain ⟨e, he, h⟩ := ok_bind_inv h
+        split at h
+        · rename_i hc
+          have hs' := tryIntoUsize_ok hs
+          have he' := tryIntoUsize_ok he
+          simp only [leafOK, List.getD, List.getElem?_eq_getElem h1, List.getElem?_eq_getElem h2, Option.getD_some,
+            decide_eq_true_eq]
+          omega
+        · cases h
+
+/-- `BytesViewView::get` succeeded: a null slot, or the descriptor is inline, or it names a buffer the view has and a
+range inside that buffer -/
+theorem viewGet_ok_leafSlot {ty : ViewTy} {v : Option Bits} {views : List Nat} {buffers : List Bytes} {idx : Nat}
+    {o : Option Bytes} (h : viewGet Fixes.all v views buffers idx = .ok o) :
+    leafSlotOK (.bytesView ty v views buffers) idx = true := by
+  cases o with
+  | none =>
+    have := slotNull_of_isValid (a := .bytesView ty v views buffers) (by intros; simp) (by intros; simp)
+      (isValid_of_viewGet_none h)
+    simp only [leafSlotOK, this, Bool.true_or]
+  | some b =>
+    apply leafSlotOK_of_leafOK
+    unfold viewGet at h
+    split at h
+    · cases h
+    · rename_i desc hd
+      obtain ⟨valid, _, h⟩ := ok_bind_inv h
+      cases valid
+      · cases h
+      · simp only [if_true] at h
+        obtain ⟨b', hb, _⟩ := ok_bind_inv h
+        have hg : views.getD idx 0 = desc := by simp [List.getD, hd]
+        simp only [leafOK, hg]
+        unfold viewBytes at hb
+        simp only at hb
+        split at hb
+        · rename_i hc; simp only [hc, if_true]
+        · rename_i hc
+          simp only [hc, if_false]
+          split at hb
+          · cases hb
+          · rename_i buf hbuf
+            simp only [hbuf]
+            split at hb
+            · rename_i hr; simpa using hr
+            · cases hb
+
+/-- a row below the length of a FixedSizeBinary column (`n > 0`, `i < data.len() / n`) lies inside the data -/
+theorem fsb_leafOK_of_lt {n : Int} {v : Option Bits} {data : Bytes} {i : Nat}
+    (h : i < lenOf (.fixedSizeBinary n v data)) : leafOK (.fixedSizeBinary n v data) i = true := by
+  simp only [lenOf] at h
+  split at h
+  · omega
+  · rename_i hn
+    have hpos : 0 < n.toNat := by omega
+    have := (Nat.le_div_iff_mul_le hpos).mp (Nat.succ_le_of_lt h)
+    simp only [leafOK, decide_eq_true_eq]
+    exact ⟨by omega, this⟩
+
+/-- the slot facts of a successful `get`, per byte column: row below the length, slot null or in range -/
+def LeafIn (a : Arr) (i : Nat) : Prop := i < lenOf a ∧ leafSlotOK a i = true
+
+theorem okImp_bytesColGet {ty : BytesTy} {v : Option Bits} {offs : List Int} {data : Bytes} {idx : Nat} :
+    OkImp (bytesColGet Fixes.all ty v offs data idx) (LeafIn (.bytes ty v offs data) idx) := by
+  intro o ho
+  unfold bytesColGet at ho
+  split at ho
+  · have ho' := asStr_ok_same ho
+    exact ⟨by simpa only [lenOf] using bytesGet_ok_lt ho', bytesGet_ok_leafSlot ho'⟩
+  · exact ⟨by simpa only [lenOf] using bytesGet_ok_lt ho, bytesGet_ok_leafSlot ho⟩
+
+theorem okImp_viewColGet {ty : ViewTy} {v : Option Bits} {views : List Nat} {buffers : List Bytes} {idx : Nat} :
+    OkImp (viewColGet Fixes.all ty v views buffers idx) (LeafIn (.bytesView ty v views buffers) idx) := by
+  intro o ho
+  unfold viewColGet at ho
+  split at ho
+  · have ho' := asStr_ok_same ho
+    exact ⟨by simpa only [lenOf] using viewGet_ok_lt ho', viewGet_ok_leafSlot ho'⟩
+  · exact ⟨by simpa only [lenOf] using viewGet_ok_lt ho, viewGet_ok_leafSlot ho⟩
+
+theorem okImp_fsbColGet {n : Int} {v : Option Bits} {data : Bytes} {idx : Nat} :
+    OkImp (fsbColGet Fixes.all n v data idx) (LeafIn (.fixedSizeBinary n v data) idx) := by
+  intro o ho
+  have hlt : idx < lenOf (.fixedSizeBinary n v data) := by
+    have := fsbColGet_ok_lt ho
+    simpa only [lenOf, vlen] using this
+  exact ⟨hlt, leafSlotOK_of_leafOK (fsb_leafOK_of_lt hlt)⟩
+
+/-- a successful `is_some` of a leaf column: the row is below the length and the slot is null or in range (every
+`is_some` of a byte column goes through its `get`) -/
+theorem isSome_ok_leafIn {a : Arr} (hl : isLeaf a = true) {idx : Nat} {b : Bool} (h : isSome Fixes.all a idx = .ok b) :
+    LeafIn a idx := by
+  refine ⟨isSome_ok_lt_lenOf h, ?_⟩
+  cases a with
+  | bytes ty v offs data =>
+    simp only [isSome] at h
+    obtain ⟨o, ho⟩ := optIsSome_ok h
+    exact (okImp_bytesColGet o ho).2
+  | bytesView ty v views buffers =>
+    simp only [isSome] at h
+    obtain ⟨o, ho⟩ := optIsSome_ok h
+    exact (okImp_viewColGet o ho).2
+  | fixedSizeBinary n v data =>
+    simp only [isSome] at h
+    obtain ⟨o, ho⟩ := optIsSome_ok h
+    exact (okImp_fsbColGet o ho).2
+  | struct _ _ _ | list _ _ _ _ _ | fixedSizeList _ _ _ _ _ | map _ _ _ _ _ | dictionary _ _ | union _ _ _ =>
+    simp [isLeaf] at hl
+  | _ => exact leafSlotOK_of_leafOK rfl
+
 /-- `is_some` answered "null" ⇒ the bitmap marks the slot as null (so `Option` / `any` targets stop here) -/
 theorem isSome_false_slotNull {a : Arr} {idx : Nat} (h : isSome Fixes.all a idx = .ok false) : slotNull a idx = true := by
   cases a with
@@ -273,6 +398,7 @@ theorem dictGetStr_touch (t : Target) {ks vs : Arr} {i : Nat} : OkImp (dictGetSt
     · obtain ⟨key, hkey, h⟩ := ok_bind_inv h
       have hk' := primGet_some (getRequired_ok hk)
       have hb := bytesGet_ok_lt (asStr_ok (getRequired_ok h)).1
+      have hbs := bytesGet_ok_leafSlot (ty := vty) (asStr_ok (getRequired_ok h)).1
       unfold tryIntoUsize at hkey
       split at hkey
       · rename_i h0
@@ -288,7 +414,7 @@ theorem dictGetStr_touch (t : Target) {ks vs : Arr} {i : Nat} : OkImp (dictGetSt
           have := leafOf_int hj
           rw [hk'.2] at this
           subst this
-          exact ⟨h0, by simp only [lenOf]; exact hb⟩
+          exact ⟨h0, by simp only [lenOf]; exact hb, hbs⟩
       · cases hkey
   · cases h
 
@@ -312,23 +438,29 @@ macro "oki_step" : tactic => `(tactic| first
 macro "oki" : tactic => `(tactic| repeat oki_step)
 
 /-- a successful scalar read (`deserialize_bool`, `…_i32`, `…_str`, …) ⇒ `touchOK`, whatever the target: the
-array is a leaf (row below its length) or a dictionary (row and key in range) -/
-theorem okImp_touch_leaf {α} (t : Target) {x : R α} {a : Arr} {i : Nat} (hl : isLeaf a = true) (h : OkImp x (i < lenOf a)) :
+array is a leaf (row below its length; for the byte columns the slot is null or what it designates lies inside its
+buffer) or a dictionary (row, key and the value slot it designates in range) -/
+theorem okImp_touch_leaf {α} (t : Target) {x : R α} {a : Arr} {i : Nat} (hl : isLeaf a = true) (h : OkImp x (LeafIn a i)) :
     OkImp x (touchOK t a i = true) :=
-  OkImp.mono h (fun hlt => touch_leaf t hl hlt)
+  OkImp.mono h (fun hin => touch_leaf t hl hin.1 hin.2)
+
+/-- the leaves whose slots designate no byte range: the row test is all there is -/
+theorem okImp_touch_leaf' {α} (t : Target) {x : R α} {a : Arr} {i : Nat} (hl : isLeaf a = true)
+    (ht : ∀ j, leafOK a j = true) (h : OkImp x (i < lenOf a)) : OkImp x (touchOK t a i = true) :=
+  OkImp.mono h (fun hlt => touch_leaf t hl hlt (leafSlotOK_of_leafOK (ht i)))
 
 theorem scalar_touch (t : Target) (m : Method) (a : Arr) (i : Nat) : OkImp (scalar Fixes.all m a i) (touchOK t a i = true) := by
   unfold scalar
   split
-  · apply okImp_touch_leaf t rfl; simp only [lenOf]; oki
-  · apply okImp_touch_leaf t rfl; simp only [lenOf]; oki
-  · apply okImp_touch_leaf t rfl; simp only [lenOf]; oki
-  · apply okImp_touch_leaf t rfl; simp only [lenOf]; oki
-  · apply okImp_touch_leaf t rfl; simp only [lenOf]; oki
-  · apply okImp_touch_leaf t rfl; simp only [lenOf]; oki
-  · apply okImp_touch_leaf t rfl; simp only [lenOf]; oki
-  · apply okImp_touch_leaf t rfl; simp only [lenOf]; oki
-  · apply okImp_touch_leaf t rfl; simp only [lenOf]; oki
+  · apply okImp_touch_leaf' t rfl (fun _ => rfl); simp only [lenOf]; oki
+  · apply okImp_touch_leaf' t rfl (fun _ => rfl); simp only [lenOf]; oki
+  · apply okImp_touch_leaf' t rfl (fun _ => rfl); simp only [lenOf]; oki
+  · apply okImp_touch_leaf' t rfl (fun _ => rfl); simp only [lenOf]; oki
+  · apply okImp_touch_leaf' t rfl (fun _ => rfl); simp only [lenOf]; oki
+  · apply okImp_touch_leaf' t rfl (fun _ => rfl); simp only [lenOf]; oki
+  · apply okImp_touch_leaf t rfl; oki
+  · apply okImp_touch_leaf t rfl; oki
+  · apply okImp_touch_leaf t rfl; oki
   · split <;> first
       | exact OkImp.bind_left (dictGetStr_touch t)
       | exact OkImp.notImpl
@@ -344,13 +476,13 @@ theorem binaryElems_touch (t : Target) {a : Arr} {i : Nat} {rb : R Bytes} (h : b
   cases a <;> simp only [binaryElems] at h
   case bytes ty v offs data =>
     split at h <;> cases h
-    exact OkImp.mono (okImp_getRequired okImp_bytesColGet) (fun h => touch_leaf t rfl (by simpa only [lenOf] using h))
+    exact OkImp.mono (okImp_getRequired okImp_bytesColGet) (fun h => touch_leaf t rfl h.1 h.2)
   case bytesView ty v views buffers =>
     split at h <;> cases h
-    exact OkImp.mono (okImp_getRequired okImp_viewColGet) (fun h => touch_leaf t rfl (by simpa only [lenOf] using h))
+    exact OkImp.mono (okImp_getRequired okImp_viewColGet) (fun h => touch_leaf t rfl h.1 h.2)
   case fixedSizeBinary n v data =>
     cases h
-    exact OkImp.mono (okImp_getRequired okImp_fsbColGet) (fun h => touch_leaf t rfl (by simpa only [lenOf] using h))
+    exact OkImp.mono (okImp_getRequired okImp_fsbColGet) (fun h => touch_leaf t rfl h.1 h.2)
   all_goals cases h
 
 theorem stringElem_touch (t : Target) {a : Arr} {i : Nat} {rs : R Bytes} (h : stringElem Fixes.all a i = some rs) :
@@ -358,24 +490,16 @@ theorem stringElem_touch (t : Target) {a : Arr} {i : Nat} {rs : R Bytes} (h : st
   cases a <;> simp only [stringElem] at h
   case bytes ty v offs data =>
     split at h <;> cases h
-    exact OkImp.mono (okImp_getRequired okImp_bytesColGet) (fun h => touch_leaf t rfl (by simpa only [lenOf] using h))
+    exact OkImp.mono (okImp_getRequired okImp_bytesColGet) (fun h => touch_leaf t rfl h.1 h.2)
   case bytesView ty v views buffers =>
     split at h <;> cases h
-    exact OkImp.mono (okImp_getRequired okImp_viewColGet) (fun h => touch_leaf t rfl (by simpa only [lenOf] using h))
+    exact OkImp.mono (okImp_getRequired okImp_viewColGet) (fun h => touch_leaf t rfl h.1 h.2)
   case dictionary ks vs =>
     cases h
     exact dictGetStr_touch t
   all_goals cases h
 
 /-! ### heads of the container reads -/
-
-theorem tryIntoUsize_ok {x : Int} {n : Nat} (h : tryIntoUsize x = .ok n) : 0 ≤ x ∧ x = (n : Int) := by
-  unfold tryIntoUsize at h
-  split at h
-  · rename_i h0
-    cases h
-    exact ⟨h0, (Int.toNat_of_nonneg h0).symm⟩
-  · cases h
 
 /-- `ListDeserializer::get` / the head of the map read: the offsets of row `i` -/
 theorem listRange_ok {offs : List Int} {i s e : Nat} (h : listRange Fixes.all offs i = .ok (s, e)) :
